@@ -51,6 +51,8 @@ def send_cancel(name, tx, rx, k, transport="tcp", n=40, size=100000, timeo=None)
         if timeo is None:
             op["cancel_after_polls"] = k
         tops.append(op)
+    if timeo is not None:
+        tops.append({"op": "sleep", "ms": 2500})          # the receiver is reading by now
     tops.append({"op": "mark", "name": "cancel_phase_done"})
     for i in range(n + 1, n + 6):
         op = {"op": "send", "sock": "tx", "mid": "a:%d" % i, "size": 500, "timeout_ms": 8000}
@@ -272,7 +274,8 @@ def run(ctx):
                 for b in regroup_frames(r, "rx"):
                     ctx.violation("C09:partial-message:recv", "%s: %s" % (sc["name"], b), rp)
             else:
-                ev = S.history_to_delivery_trace(r, senders, receivers)
+                r_norm = dict(r, records=[dict(x, mid=re.sub(r"^(.*:\d+)\.1$", r"\1", x["mid"])) if x.get("op") == "recv" and "mid" in x else x for x in r["records"]])
+                ev = S.history_to_delivery_trace(r_norm, senders, receivers)
                 if meta.get("lossy"):
                     deliv_fan.append((sc["name"], [e for e in ev if e["e"] != "quiesce"], rp))
                 else:
@@ -339,7 +342,10 @@ def run(ctx):
         if j is None:
             continue
         r2 = [dict(e) for e in run_]
-        r2[j]["res"] = "state"                              # the valid next call rejected
+        r2[j]["res"] = "state"                              # the valid next call rejected ...
+        other = dict(r2[j])
+        other["op"] = "recv" if r2[j]["op"] == "send" else "send"
+        r2 = r2[:j + 1] + [other] + r2[j + 1:]              # ... and the other one too: the socket is stuck
         pert += 1
         if validate_fsm(ctx, [r2], "pertf"):
             flagged += 1
